@@ -13,7 +13,8 @@ import subprocess
 import tempfile
 
 HEXD = "[0-9a-f]"
-REG = r"%(?:[a-z][a-z0-9]{0,5}(?:\([0-7]\))?|\?)"  # %rax %r12d %st(3) %xmm15 %k1, %? for an invalid register number
+REG = r"%(?:[a-z][a-z0-9]{0,5}|\?)"  # %rax %r12d %xmm15 %k1, %? for an invalid register number
+STREG = r"%st(?:\([0-7]\))?"  # x87 stack register, only ever a whole operand
 NUM = rf"-?0x{HEXD}{{1,16}}"
 SEG = r"(?:%[c-gs]s:)?"
 DECOR = r"(?:\{%k[0-7]\})?(?:\{z\})?(?:\{1to(?:2|4|8|16|32)\})?"
@@ -25,7 +26,7 @@ IMM = rf"\${NUM}"
 TARGET = rf"(?:0x)?{HEXD}{{1,16}}"
 ROUND = r"\{(?:r[nudz]-)?sae\}"
 BADOP = rf"{SEG}\(bad\)"  # invalid ModRM for the instruction
-OPND = rf"(?:\*?{REG}{DECOR}|{IMM}|\*?{MEM}|\*?{ABS}|{TARGET}|{ROUND}|{BADOP}|\{{%k[0-7]\}})"
+OPND = rf"(?:\*?{REG}{DECOR}|{STREG}|{IMM}|\*?{MEM}|\*?{ABS}|{TARGET}|{ROUND}|{BADOP}|\{{%k[0-7]\}})"
 OPS = rf"{OPND}(?:,{OPND}){{0,4}}"
 
 WORD = r"(?:[a-z][a-z0-9]{0,14}(?:\.[a-zA-Z0-9]{1,4})?|\(bad\)|\.byte|\{[a-z0-9]{1,5}\})"
